@@ -1,1 +1,205 @@
-import sys; print("vp: not built yet"); sys.exit(0)
+#!/usr/bin/env python3
+"""vp — driver of the bma400-rs verification (DESIGN.md section 13).
+
+  ./vp setup                         build everything from files on disk (offline)
+  ./vp gen                           translate /repo/src, render the spec, sync the Coq tree
+  ./vp make [targets...]             gen + make the given .vo targets (default: all)
+  ./vp check Cnn [--tier quick|thorough]
+  ./vp replay Cnn FILE
+
+Exit codes of `check`: 0 property held; 1 + `VIOLATION property=.. replay=..`; 2 machinery broken.
+"""
+import fcntl, glob, hashlib, json, os, re, shutil, subprocess, sys, time
+
+VERIF = os.path.dirname(os.path.dirname(os.path.abspath(__file__)))
+REPO = os.environ.get('VERIF_REPO', '/repo')
+BUILD = os.path.join(VERIF, 'build')
+COQ = os.path.join(BUILD, 'coq')
+ENV = dict(os.environ, CARGO_NET_OFFLINE='true')
+NPROC = '16'
+
+
+def log(*a):
+    print(*a, file=sys.stderr, flush=True)
+
+
+def run(cmd, cwd=None, timeout=None, env=None, capture=True):
+    """returns (rc, output); rc 124 on timeout"""
+    try:
+        p = subprocess.run(cmd, cwd=cwd, env=env or ENV, timeout=timeout, shell=isinstance(cmd, str),
+                           stdout=subprocess.PIPE if capture else None, stderr=subprocess.STDOUT if capture else None,
+                           text=True, errors='replace')
+        return p.returncode, p.stdout or ''
+    except subprocess.TimeoutExpired as e:
+        out = e.stdout if isinstance(e.stdout, str) else (e.stdout or b'').decode(errors='replace')
+        return 124, out
+
+
+def write_if_changed(path, text):
+    try:
+        if open(path).read() == text:
+            return False
+    except (FileNotFoundError, UnicodeDecodeError):
+        pass
+    os.makedirs(os.path.dirname(path), exist_ok=True)
+    with open(path, 'w') as f:
+        f.write(text)
+    return True
+
+
+class Lock:
+    def __enter__(self):
+        os.makedirs(BUILD, exist_ok=True)
+        self.f = open(os.path.join(BUILD, '.lock'), 'w')
+        fcntl.flock(self.f, fcntl.LOCK_EX)
+        return self
+
+    def __exit__(self, *a):
+        fcntl.flock(self.f, fcntl.LOCK_UN)
+        self.f.close()
+
+
+# ----------------------------------------------------------------------------- translator
+def build_rs2v():
+    rc, out = run(['cargo', 'build', '--offline', '--quiet'], cwd=os.path.join(VERIF, 'rs2v'), timeout=900)
+    if rc != 0:
+        raise Broken('rs2v does not build:\n' + out[-3000:])
+
+
+class Broken(Exception):
+    """the machinery itself failed (exit 2)"""
+
+
+class TieBroken(Exception):
+    """translation / proof obligation / correspondence no longer checks"""
+    def __init__(self, what, detail=''):
+        super().__init__(what)
+        self.what, self.detail = what, detail
+
+
+def translate():
+    """rs2v /repo/src -> build/coq/gen (files rewritten only when their content changed)"""
+    build_rs2v()
+    tmp = os.path.join(BUILD, 'gen_tmp')
+    shutil.rmtree(tmp, ignore_errors=True)
+    os.makedirs(tmp)
+    rc, out = run([os.path.join(VERIF, 'rs2v/target/debug/rs2v'), os.path.join(REPO, 'src'), tmp], timeout=120)
+    if rc == 3:
+        m = re.search(r'rs2v: unsupported: (.*)', out)
+        raise TieBroken('translator: ' + (m.group(1) if m else 'unsupported construct'), out[-2000:])
+    if rc != 0:
+        raise TieBroken('translator failed (rc %d)' % rc, out[-3000:])
+    gen = os.path.join(COQ, 'gen')
+    os.makedirs(gen, exist_ok=True)
+    for f in os.listdir(tmp):
+        write_if_changed(os.path.join(gen, f), open(os.path.join(tmp, f)).read())
+    shutil.rmtree(tmp, ignore_errors=True)
+    return out.strip()
+
+
+def render_spec():
+    rc, out = run([sys.executable, os.path.join(VERIF, 'spec/gen_spec.py'), os.path.join(COQ, 'gen/meta.json'),
+                   os.path.join(COQ, 'spec')], timeout=120)
+    if rc == 4:
+        raise TieBroken('spec: ' + out.strip().splitlines()[-1], out)
+    if rc != 0:
+        raise Broken('gen_spec failed:\n' + out[-3000:])
+    return out.strip()
+
+
+def sync_coq():
+    """copy the hand-written Coq sources into the build tree, write _CoqProject and the Makefile"""
+    src = os.path.join(VERIF, 'coq')
+    changed = False
+    for root, _dirs, files in os.walk(src):
+        for f in files:
+            if f.endswith('.v'):
+                rel = os.path.relpath(os.path.join(root, f), src)
+                write_if_changed(os.path.join(COQ, rel), open(os.path.join(root, f)).read())
+    # remove stale copies of hand-written files that no longer exist
+    for sub in ('lib', 'proofs', 'props', 'hand'):
+        for f in glob.glob(os.path.join(COQ, sub, '*.v')):
+            if not os.path.exists(os.path.join(src, sub, os.path.basename(f))):
+                for g in glob.glob(f[:-2] + '.*') + glob.glob(os.path.join(COQ, sub, '.' + os.path.basename(f)[:-2] + '.aux')):
+                    os.remove(g)
+    vfiles = sorted(os.path.relpath(p, COQ) for p in glob.glob(os.path.join(COQ, '*', '*.v')))
+    proj = '-R . BMA\n' + '\n'.join(vfiles) + '\n'
+    if write_if_changed(os.path.join(COQ, '_CoqProject'), proj) or not os.path.exists(os.path.join(COQ, 'Makefile')):
+        rc, out = run(['coq_makefile', '-f', '_CoqProject', '-o', 'Makefile'], cwd=COQ, timeout=60)
+        if rc != 0:
+            raise Broken('coq_makefile failed:\n' + out)
+    return vfiles
+
+
+def gen():
+    t = translate()
+    s = render_spec()
+    sync_coq()
+    return t, s
+
+
+def make(targets, timeout=3000):
+    """make the given targets; returns (ok, output). Output of each coqc is kept in <file>.out by the Makefile? no:
+    we capture make's combined output."""
+    cmd = ['make', '-j' + NPROC, '-k'] + list(targets)
+    rc, out = run(cmd, cwd=COQ, timeout=timeout)
+    return rc == 0, out
+
+
+# ----------------------------------------------------------------------------- commands
+def cmd_setup(_args):
+    with Lock():
+        t0 = time.time()
+        log('[setup] translator + spec + Coq tree')
+        t, s = gen()
+        log('  ', t)
+        log('  ', s)
+        ok, out = make(['all'])
+        if not ok:
+            log(out[-6000:])
+            log('[setup] Coq build FAILED')
+            return 2
+        log('[setup] Coq build ok (%.0f s)' % (time.time() - t0))
+    return 0
+
+
+def cmd_gen(_args):
+    with Lock():
+        t, s = gen()
+        print(t)
+        print(s)
+    return 0
+
+
+def cmd_make(args):
+    with Lock():
+        gen()
+        ok, out = make(args or ['all'])
+        print(out[-8000:])
+        return 0 if ok else 1
+
+
+def main():
+    if len(sys.argv) < 2:
+        print(__doc__)
+        return 2
+    cmd, args = sys.argv[1], sys.argv[2:]
+    table = {'setup': cmd_setup, 'gen': cmd_gen, 'make': cmd_make}
+    try:
+        from vp_check import cmd_check, cmd_replay
+        table['check'] = cmd_check
+        table['replay'] = cmd_replay
+    except ImportError:
+        pass
+    if cmd not in table:
+        print(__doc__)
+        return 2
+    try:
+        return table[cmd](args)
+    except Broken as e:
+        log('vp: machinery broken:', e)
+        return 2
+
+
+if __name__ == '__main__':
+    sys.exit(main())
